@@ -24,6 +24,7 @@ import (
 	"github.com/temporalio/s2s-proxy/metrics"
 	"github.com/temporalio/s2s-proxy/transport/grpcutil"
 	"github.com/temporalio/s2s-proxy/transport/mux"
+	"github.com/temporalio/s2s-proxy/transport/mux/session"
 	"verifharness/fakes"
 	"verifharness/rec"
 )
@@ -68,7 +69,7 @@ func endpointKeys(m *grpcutil.MultiClientConn) []string {
 	return out
 }
 
-func runMuxRPC(seed int64, nOps, poolSize int) (viol []rec.Violation, counts map[string]int64, inconclusive string, log []string) {
+func runMuxRPC(seed int64, nOps, poolSize int, slowListener bool) (viol []rec.Violation, counts map[string]int64, inconclusive string, log []string) {
 	counts = map[string]int64{}
 	var lmu sync.Mutex
 	t0 := time.Now()
@@ -91,8 +92,27 @@ func runMuxRPC(seed int64, nOps, poolSize int) (viol []rec.Violation, counts map
 		return nil, counts, "NewMultiClientConn: " + err.Error(), nil
 	}
 	addr := freeAddr()
-	mgr, err := mux.NewGRPCMuxManager(life, "verif", config.ClusterDefinition{ConnectionType: config.ConnTypeMuxServer, MuxCount: poolSize, MuxAddressInfo: config.TCPTLSInfo{ConnectionString: addr}},
-		mcc, grpc.NewServer(), probe)
+	cd := config.ClusterDefinition{ConnectionType: config.ConnTypeMuxServer, MuxCount: poolSize, MuxAddressInfo: config.TCPTLSInfo{ConnectionString: addr}}
+	var mgr mux.MultiMuxManager
+	if !slowListener {
+		mgr, err = mux.NewGRPCMuxManager(life, "verif", cd, mcc, grpc.NewServer(), probe)
+	} else {
+		// the same provider and the same listener, but every list update takes a few milliseconds to apply (as a
+		// slow resolver/balancer would): in correct code the update runs under the table lock, so this only holds
+		// the lock longer; it widens the window of any update that is applied outside it
+		var dmu sync.Mutex
+		drng := rand.New(rand.NewSource(seed + 99))
+		slow := func(m map[string]session.ManagedMuxSession) {
+			dmu.Lock()
+			d := time.Duration(1+drng.Intn(15)) * time.Millisecond
+			dmu.Unlock()
+			time.Sleep(d)
+			mcc.OnConnectionListUpdate(m)
+		}
+		mgr, err = mux.NewCustomMultiMuxManager(life, "verif", func(cb mux.AddNewMux, lt context.Context) (mux.MuxProvider, error) {
+			return mux.NewMuxReceiverProvider(lt, "verif", cb, int64(poolSize), cd.MuxAddressInfo, []string{addr, "mux-server", "verif"}, probe)
+		}, nil, []mux.OnConnectionListUpdate{slow}, probe)
+	}
 	if err != nil {
 		return nil, counts, "NewGRPCMuxManager: " + err.Error(), nil
 	}
@@ -245,13 +265,22 @@ func runMuxRPC(seed int64, nOps, poolSize int) (viol []rec.Violation, counts map
 			p := lv[rng.Intn(len(lv))]
 			kill(p)
 			what = fmt.Sprintf("kill peer-%d", p.id)
-		case r < 8 && len(lv) < poolSize: // flap: a session that dies right after it was established
+		case r < 9 && len(lv) < poolSize: // flap: a session that dies right after it was established
+			before := len(mgr.GetMuxConnections())
 			if p := connect(); p != nil {
-				time.Sleep(time.Duration(rng.Intn(3)) * time.Millisecond)
+				if rng.Intn(3) == 0 {
+					time.Sleep(time.Duration(rng.Intn(25)) * time.Millisecond)
+				} else {
+					// die at the moment the session shows up in the manager's table (reading the table takes the
+					// table lock, so in correct code the update for this session has been applied by then)
+					for i := 0; i < 20000 && len(mgr.GetMuxConnections()) <= before; i++ {
+						time.Sleep(100 * time.Microsecond)
+					}
+				}
 				kill(p)
 				what = fmt.Sprintf("flap peer-%d", p.id)
 			}
-		case r < 9 && len(lv) > 0: // drop to zero
+		case r < 10 && rng.Intn(2) == 0 && len(lv) > 0: // drop to zero
 			for _, p := range lv {
 				kill(p)
 			}
@@ -307,7 +336,7 @@ func runMuxRPC(seed int64, nOps, poolSize int) (viol []rec.Violation, counts map
 
 func TestMuxRPC(t *testing.T) {
 	out := rec.Default()
-	n := 12
+	n := 24
 	if rec.Thorough() {
 		n = 300
 	}
@@ -317,8 +346,9 @@ func TestMuxRPC(t *testing.T) {
 			continue
 		}
 		pool := 1 + idx%3
-		out.Begin(name, map[string]any{"ops": 14, "pool": pool})
-		viol, counts, inc, log := runMuxRPC(rec.Mix(rec.Seed(), name), 14, pool)
+		slow := idx%2 == 1
+		out.Begin(name, map[string]any{"ops": 14, "pool": pool, "slow_listener": slow})
+		viol, counts, inc, log := runMuxRPC(rec.Mix(rec.Seed(), name), 14, pool, slow)
 		l := rec.Line{Case: name, Viol: dedupe(viol), Counts: counts, Class: name}
 		if inc != "" && len(viol) == 0 {
 			l.Verdict, l.Why = rec.Inconclusive, inc
